@@ -1958,10 +1958,17 @@ impl<'p> Evaluator<'_, 'p> {
                 self.string_stack.push(String::new());
                 self.state_stack.push(State::StringToValue);
 
+                let (_, func_env) = self.get_func_info(&func);
                 for chr in s.chars().rev() {
-                    let args_thunks = Box::new([self
+                    let arg_thunk = self
                         .program
-                        .gc_alloc(ThunkData::new_done(ValueData::from_char(chr)))]);
+                        .gc_alloc_view(ThunkData::new_done(ValueData::from_char(chr)));
+                    let args_thunks = self.check_call_thunk_args(
+                        &func.params,
+                        &[arg_thunk],
+                        &[],
+                        func_env.clone(),
+                    )?;
 
                     self.state_stack
                         .push(State::FnFallible(Self::do_std_flat_map_string_part));
@@ -1976,8 +1983,14 @@ impl<'p> Evaluator<'_, 'p> {
                 self.array_stack.push(Vec::new());
                 self.state_stack.push(State::ArrayToValue);
 
+                let (_, func_env) = self.get_func_info(&func);
                 for item in array.iter().rev() {
-                    let args_thunks = Box::new([item.clone()]);
+                    let args_thunks = self.check_call_thunk_args(
+                        &func.params,
+                        &[item.view()],
+                        &[],
+                        func_env.clone(),
+                    )?;
 
                     self.state_stack
                         .push(State::FnFallible(Self::do_std_flat_map_array_part));
